@@ -19,3 +19,19 @@ let rec int_of_nat (n : Datatypes.nat) : int = match n with Datatypes.O -> 0 | D
 
 let tokens (line : string) : string list =
   SL.filter (fun s -> s <> "") (SS.split_on_char ' ' (SS.trim line))
+
+(* extracted Coq strings (String.string over Ascii.ascii) <-> OCaml strings *)
+let char_of_ascii (a : Ascii.ascii) : char =
+  match a with Ascii.Ascii (b0, b1, b2, b3, b4, b5, b6, b7) ->
+    let v b k = if b then 1 lsl k else 0 in
+    Char.chr (v b0 0 lor v b1 1 lor v b2 2 lor v b3 3 lor v b4 4 lor v b5 5 lor v b6 6 lor v b7 7)
+let ascii_of_char (c : char) : Ascii.ascii =
+  let n = Char.code c in let b k = (n lsr k) land 1 = 1 in
+  Ascii.Ascii (b 0, b 1, b 2, b 3, b 4, b 5, b 6, b 7)
+let ostring_of_coq (s : String.string) : string =
+  let b = Buffer.create 16 in
+  let rec go s = match s with String.EmptyString -> () | String.String (a, r) -> Buffer.add_char b (char_of_ascii a); go r in
+  go s; Buffer.contents b
+let coq_of_ostring (s : string) : String.string =
+  let r = ref String.EmptyString in
+  for i = Stdlib.String.length s - 1 downto 0 do r := String.String (ascii_of_char (Stdlib.String.get s i), !r) done; !r
